@@ -289,6 +289,7 @@ class Sym:
         self.max_depth = max_depth
         self.bound: Dict[str, str] = {}       # name -> canonical string override (inlining)
         self.suffix: Optional[Callable[[str], str]] = None   # version suffix for untracked state reads
+        self.decide: Optional[Callable] = None   # cmp normal form -> True / False / None: assumptions under which conditional values collapse
         self.scope: List[Dict[str, str]] = []  # comprehension/lambda bound names -> positional canonical names (alpha-normal form)
 
     # ---- helpers
@@ -355,7 +356,12 @@ class Sym:
             opn = type(e.op).__name__
             return Poly.atom(f"{opn}({l.key()}, {r.key()})")
         if isinstance(e, ast.IfExp):
-            return ite_atom(self.cmp(e.test, at, depth + 1), self.ev(e.body, at, depth + 1), self.ev(e.orelse, at, depth + 1))
+            c_ = self.cmp(e.test, at, depth + 1)
+            if self.decide is not None:
+                v_ = self.decide(c_)
+                if v_ is not None:
+                    return self.ev(e.body if v_ else e.orelse, at, depth + 1)
+            return ite_atom(c_, self.ev(e.body, at, depth + 1), self.ev(e.orelse, at, depth + 1))
         if isinstance(e, ast.Call):
             return self._call(e, at, depth)
         if isinstance(e, ast.Attribute):
@@ -500,6 +506,10 @@ class Sym:
             if d is outer_only:
                 return self._name(ast.Name(id=var, ctx=ast.Load()), tn.id, depth + 1)      # the value reaching the `if` (one definition there)
             return self.ev(d.value, d.node, depth + 1)
+        if self.decide is not None:
+            v_ = self.decide(c)
+            if v_ is not None:
+                return val(tv if v_ else fv)
         a = val(tv)
         b = val(fv)
         return ite_atom(c, a, b)
